@@ -290,6 +290,13 @@ def rule_r3(ctx):
         ctx.r.violation(rid, key_of(f, None, "no-chunked-branch"), "write() has no chunked branch", f.loc())
     else:
         b = branch[0]
+        # chunk coding takes precedence: the chunked branch is guarded only by data / has_body / chunked_response
+        extra = [(norm(t), pol) for (t, pol) in guards_of(g, b) if dotted(t) not in (data, "self.has_body", "self.chunked_response", "self.complete", "self.wrote_header")]
+        if extra:
+            ctx.r.violation(rid, key_of(f, None, "chunking-preempted"),
+                            "the chunk coding of write() only applies under %s: a response announced as chunked can be written raw (e.g. once execute() learned a length after the head was sent)" % extra, f.loc(b.ast))
+        else:
+            ctx.r.ok(rid, "chunk coding applies whenever the response was announced as chunked", f.loc(b.ast))
         parts = []
         var = None
         for n in g.nodes:
@@ -563,6 +570,7 @@ selftest = [
     M("readonly-get-unbounded", "buffers.py", "        if numbytes == -1 or numbytes > self.remain:\n            numbytes = self.remain\n        file = self.file\n        if not skip:\n            read_pos = file.tell()\n        res = file.read(numbytes)\n        if skip:\n            self.remain -= len(res)", "        if numbytes == -1:\n            numbytes = self.remain\n        file = self.file\n        if not skip:\n            read_pos = file.tell()\n        res = file.read(numbytes)\n        if skip:\n            self.remain -= len(res)", "R6"),
     M("relay-not-on-finish", "channel.py", "        if task.close_on_finish or self.will_close:\n            with self.requests_lock:\n                self.close_when_flushed = True\n", "        if task.close_on_finish or self.will_close:\n            with self.requests_lock:\n                self.close_when_flushed = bool(self.requests)\n", None),
     M("error-request-to-app", "channel.py", "        if request.error:\n            task = self.error_task_class(self, request)\n        else:\n            task = self.task_class(self, request)", "        if request.error and request.completed is False:\n            task = self.error_task_class(self, request)\n        else:\n            task = self.task_class(self, request)", "R9"),
+
     T("reorder-appends", "task.py", "                if self.has_body:\n                    self.response_headers.append((\"Transfer-Encoding\", \"chunked\"))\n                    self.chunked_response = True", "                if self.has_body:\n                    self.chunked_response = True\n                    self.response_headers.append((\"Transfer-Encoding\", \"chunked\"))"),
     T("close-test-hoisted", "task.py", "                if not self.close_on_finish:\n                    self.set_close_on_finish()\n\n            # under HTTP 1.1 keep-alive", "                self.set_close_on_finish()\n\n            # under HTTP 1.1 keep-alive"),
     T("chunk-single-expr", "task.py", "                towrite = hex(len(data))[2:].upper().encode(\"latin-1\") + b\"\\r\\n\"\n                towrite += data + b\"\\r\\n\"\n", "                towrite = hex(len(data))[2:].upper().encode(\"latin-1\") + b\"\\r\\n\" + data + b\"\\r\\n\"\n"),
